@@ -51,7 +51,8 @@ def block_diag(ctx, interp, bm_term, where, tag):
                     witness="; ".join(probs) or f"period {period.pretty()}, cut {cut.pretty()}")
         return None
     # expected skeleton: Rep([Elem(A), Rep([Elem(None)], c)], K-1), Elem(A)
-    ok = len(items) == 2 and isinstance(items[0], Rep) and isinstance(items[1], Elem)
+    trailing = len(items) == 2 and isinstance(items[1], Elem)
+    ok = len(items) in (1, 2) and isinstance(items[0], Rep) and (len(items) == 1 or trailing)
     if ok:
         rep = items[0]
         inner = rep.items
@@ -64,12 +65,12 @@ def block_diag(ctx, interp, bm_term, where, tag):
         return None
     A = inner[0].value
     c = inner[1].count            # number of None after each block
-    K = rep.count + 1             # number of blocks
+    K = rep.count + (1 if trailing else 0)             # number of blocks
     period = c + 1
-    total = rep.count * period + 1
+    total = rep.count * period + (1 if trailing else 0)
     ctx.instance("LAYOUT", 3)
     good = True
-    if vkey(items[1].value) != vkey(A):
+    if trailing and vkey(items[1].value) != vkey(A):
         ctx.violate("LAYOUT", f"{tag}.blocks.same", "the last diagonal block differs from the others", where, "my_blocks", witness=vstr(items[1].value)[:200])
         good = False
     if not (nr == nc):
